@@ -16,7 +16,9 @@ Predef == << [c |-> "*", id |-> 5, n |-> "pre/x", tl |-> <<"pre", "x">>],
              [c |-> "*", id |-> 6, n |-> "pre/z", tl |-> <<"pre", "z">>],
              [c |-> "c1", id |-> 6, n |-> "own/z", tl |-> <<"own", "z">>],
              [c |-> "c1", id |-> 7, n |-> "pre/x", tl |-> <<"pre", "x">>] >>
-Cfg == [cid |-> "c1", rd |-> 10, rc |-> 2, ct |-> 50, ka |-> 20, kaloop |-> FALSE, predef |-> Predef, will |-> ""]
+\* group "will": the client is configured with a will (topic "w/t", payload "will", see harness/iodrv)
+Cfg == [cid |-> "c1", rd |-> 10, rc |-> 2, ct |-> 50, ka |-> 20, kaloop |-> FALSE, predef |-> Predef,
+        will |-> IF "will" \in Groups THEN "w/t" ELSE ""]
 
 Levels(n) == CASE n = "t/a" -> <<"t", "a">> [] n = "t/b" -> <<"t", "b">> [] n = "t/#" -> <<"t", "#">>
                [] n = "t/+" -> <<"t", "+">> [] n = "#" -> <<"#">> [] n = "ab" -> <<"ab">> [] n = "cd" -> <<"cd">>
